@@ -45,6 +45,7 @@ type binCase struct {
 	SeedPfx  string   `json:"seedpfx"`  // hex of the wallet.cfg "seed=" value ("" = none)
 	P39On    bool     `json:"p39on"`    // -p39 given (also implied by a non-empty P39 in older replay files)
 	P39Term  string   `json:"p39term"`  // how the typed line ends: lf | crlf | eof
+	Dialog   string   `json:"dialog"`   // first-time run without .secret, password typed at the prompts: save_y | save_n | retry_y | single_y | ask_p | mismatch ("" = not exercised)
 	CRLF     bool     `json:"crlf"`     // wallet.cfg written with CR LF line ends
 	Via      string   `json:"via"`      // stdin | file (.secret)
 	Flags    bool     `json:"flags"`    // options as command-line switches instead of wallet.cfg lines
@@ -132,6 +133,101 @@ func runWallet(bin, dir string, stdin []byte, args ...string) (runResult, error)
 		return res, fmt.Errorf("running the wallet: %v", err)
 	}
 	return res, nil
+}
+
+// runWalletDialog runs the wallet with a pipe as stdin and types the answers the way a terminal delivers them:
+// each step waits until the expected prompt has appeared on stdout (the wallet writes prompts unbuffered) and only
+// then writes the line.  The wallet reads the password with one read() per prompt, so nothing may be sent early.
+func runWalletDialog(bin, dir string, steps [][2]string, args ...string) (runResult, error) {
+	ctx, cancel := context.WithTimeout(context.Background(), 5*time.Minute)
+	defer cancel()
+	cmd := exec.CommandContext(ctx, bin, args...)
+	cmd.Dir = dir
+	cmd.Env = []string{"PATH=/usr/bin:/bin", "HOME=" + dir}
+	stdin, err := cmd.StdinPipe()
+	if err != nil {
+		return runResult{}, err
+	}
+	var mu sync.Mutex
+	var so, se bytes.Buffer
+	notify := make(chan struct{}, 1)
+	cmd.Stdout = writerFunc(func(b []byte) (int, error) {
+		mu.Lock()
+		so.Write(b)
+		mu.Unlock()
+		select {
+		case notify <- struct{}{}:
+		default:
+		}
+		return len(b), nil
+	})
+	cmd.Stderr = &se
+	if err := cmd.Start(); err != nil {
+		return runResult{}, err
+	}
+	done := make(chan error, 1)
+	go func() { done <- cmd.Wait() }()
+	var werr error
+	exited := false
+	pos := 0
+	for _, st := range steps {
+		for !exited {
+			mu.Lock()
+			i := strings.Index(so.String()[pos:], st[0])
+			if i >= 0 {
+				pos += i + len(st[0])
+			}
+			mu.Unlock()
+			if i >= 0 {
+				break
+			}
+			select {
+			case <-notify:
+			case werr = <-done:
+				exited = true
+			case <-time.After(200 * time.Millisecond):
+			}
+		}
+		if exited {
+			break
+		}
+		if _, e := stdin.Write([]byte(st[1])); e != nil {
+			break
+		}
+	}
+	stdin.Close()
+	if !exited {
+		werr = <-done
+	}
+	mu.Lock()
+	res := runResult{stdout: so.String(), stderr: se.String()}
+	mu.Unlock()
+	if werr != nil {
+		if ee, ok := werr.(*exec.ExitError); ok && ctx.Err() == nil {
+			res.code = ee.ExitCode()
+			return res, nil
+		}
+		return res, fmt.Errorf("running the wallet: %v", werr)
+	}
+	return res, nil
+}
+
+type writerFunc func([]byte) (int, error)
+
+func (f writerFunc) Write(b []byte) (int, error) { return f(b) }
+
+// typeable tells whether the password can be typed on one terminal line and comes back unchanged from the
+// wallet's line reader (no control characters; the reader also cuts trailing ones).
+func typeable(pw []byte) bool {
+	if len(pw) == 0 || len(pw) > 200 {
+		return false
+	}
+	for _, b := range pw {
+		if b < 0x20 || b == 0x7f {
+			return false
+		}
+	}
+	return true
 }
 
 func pathString(p []uint32) string {
@@ -228,10 +324,10 @@ func setupWallet(dir string, c binCase) (args []string, stdin []byte, err error)
 			args = append(args, "-p39")
 			stdin = typed
 		}
-	} else {
+	} else if c.Via == "stdin" {
 		args = append(args, "-stdin")
 		stdin = pw
-	}
+	} // ("none": neither file nor -stdin - the wallet asks)
 	return
 }
 
@@ -309,7 +405,8 @@ func findTagged(lines []string, tag string) string {
 }
 
 type binInfo struct {
-	builds          int // wallets built inside the one process of the -sign .. -send .. -l invocation
+	dialog          string // the first-time dialogue that was exercised
+	builds          int    // wallets built inside the one process of the -sign .. -send .. -l invocation
 	refusedEmptyP39 bool
 	keys            int
 	refKeys         bool // keys were compared with reference derivation
@@ -479,6 +576,87 @@ func checkBinary(c binCase) (info binInfo, err error) {
 			}
 			if want <= 2 {
 				break
+			}
+		}
+	}
+	// first-time use: no .secret file, the password typed at the prompt(s), optionally saved, then read back from the
+	// saved file by later runs.  Every run that gets the password must list this same wallet, and a saved .secret
+	// holds exactly the password bytes.
+	if c.Dialog != "" && !p39on {
+		pw, _ := hex.DecodeString(c.Password)
+		if c.Bip39 == -1 {
+			ent, _ := hex.DecodeString(c.Entropy)
+			m, _ := hd.MnemonicFromEntropy(ent)
+			pw = []byte(userMnemonic(m, c.Deco))
+		}
+		if typeable(pw) {
+			info.dialog = c.Dialog
+			first := c
+			first.Via = "none"
+			dird, err := os.MkdirTemp("", "c14w")
+			if err != nil {
+				return info, err
+			}
+			defer os.RemoveAll(dird)
+			argsd, _, err := setupWallet(dird, first)
+			if err != nil {
+				return info, err
+			}
+			const pEnter, pAgain, pSave = "seed password: ", "(to be sure): ", "(y/n) : "
+			line := string(pw) + "\n"
+			var steps [][2]string
+			extra := []string{"-l"}
+			saved, listed := false, true
+			switch c.Dialog {
+			case "save_y":
+				steps, saved = [][2]string{{pEnter, line}, {pAgain, line}, {pSave, "y\n"}}, true
+			case "save_n":
+				steps = [][2]string{{pEnter, line}, {pAgain, line}, {pSave, "n\n"}}
+			case "retry_y":
+				steps, saved = [][2]string{{pEnter, line}, {pAgain, line}, {pSave, "yes\n"}, {pSave, "\n"}, {pSave, "Y\n"}}, true
+			case "single_y":
+				steps, saved, extra = [][2]string{{pEnter, line}, {pSave, "y\n"}}, true, []string{"-l", "-1"}
+			case "ask_p":
+				steps, extra = [][2]string{{pEnter, line}, {pAgain, line}}, []string{"-l", "-p"}
+			case "mismatch":
+				steps, listed = [][2]string{{pEnter, line}, {pAgain, string(pw) + "x\n"}}, false
+			default:
+				return info, fmt.Errorf("bad case: dialog %q", c.Dialog)
+			}
+			rd, err := runWalletDialog(bin, dird, steps, append(append([]string{}, argsd...), extra...)...)
+			if err != nil {
+				return info, err
+			}
+			ld, lerr := os.ReadFile(filepath.Join(dird, "wallet.txt"))
+			sec, serr := os.ReadFile(filepath.Join(dird, ".secret"))
+			if !listed {
+				if lerr == nil || serr == nil {
+					return info, fmt.Errorf("the repeated password did not match, yet wallet.txt / .secret were written (%v %v): %s", lerr == nil, serr == nil, desc(rd))
+				}
+			} else {
+				if lerr != nil || !bytes.Equal(ld, listing[0]) {
+					return info, fmt.Errorf("typing the password %q at the prompt (%s) lists a different wallet than giving it by file/stdin:\n%s\n---\n%s\n%s", pw, c.Dialog, listing[0], ld, desc(rd))
+				}
+				if saved != (serr == nil) {
+					return info, fmt.Errorf("dialog %s: .secret written = %v: %s", c.Dialog, serr == nil, desc(rd))
+				}
+				if saved {
+					if !bytes.Equal(sec, pw) {
+						return info, fmt.Errorf("the password %q was saved to .secret as %d bytes %q", pw, len(sec), sec)
+					}
+					// later runs read the saved file
+					for round := 2; round <= 3; round++ {
+						os.Remove(filepath.Join(dird, "wallet.txt"))
+						r2, err := runWallet(bin, dird, nil, append(append([]string{}, argsd...), "-l")...)
+						if err != nil {
+							return info, err
+						}
+						l2, _ := os.ReadFile(filepath.Join(dird, "wallet.txt"))
+						if r2.code != 0 || !bytes.Equal(l2, listing[0]) {
+							return info, fmt.Errorf("run %d, reading the password saved by the first run, lists a different wallet:\n%s\n---\n%s\n%s", round, listing[0], l2, desc(r2))
+						}
+					}
+				}
 			}
 		}
 	}
@@ -953,6 +1131,7 @@ func genBinCase(t *rapid.T) binCase {
 		c.Bip39 = rapid.SampledFrom([]int{-1, -1, -1, 0, 0, 12, 15, 18, 21, 24}).Draw(t, "bip39")
 	}
 	c.CRLF = rapid.IntRange(0, 4).Draw(t, "crlf") == 0
+	c.Dialog = rapid.SampledFrom([]string{"save_y", "save_y", "save_n", "retry_y", "single_y", "ask_p", "mismatch", "", ""}).Draw(t, "dialog")
 	if c.Bip39 == -1 {
 		c.Scrypt = 0 // the wallet refuses scrypt together with a user mnemonic
 		n := rapid.SampledFrom([]int{16, 20, 24, 28, 32}).Draw(t, "entlen")
@@ -1081,6 +1260,10 @@ func TestWalletBinary(t *testing.T) {
 		pbt.AddExtra("wallet_keys_checked", int64(info.keys))
 		if info.refKeys {
 			r.Class("keys_equal_reference_derivation")
+		}
+		if info.dialog != "" {
+			r.Class("first_time_dialog")
+			r.Class("dialog_" + info.dialog)
 		}
 		if info.builds >= 2 {
 			r.Class("wallet_built_twice_in_one_process")
